@@ -132,6 +132,32 @@ def go_case(rng, **kw):
     return c
 
 
+def entry_case(rng, **kw):
+    """`wormhole receive` through the real click entry point, in a process whose $PWD is not its working directory"""
+    pwd = kw.pop("pwd", None)
+    c = go_case(rng, **kw)
+    c["kind"] = "entry"
+    c["pwd"] = pwd or rng.choice(PWD_MODES)
+    c["elsewhere"] = rng.choice(["file", "file", "dir", "none"])
+    c["output"] = kw.get("output") or rng.choice(["unset", "unset", "unset", "new", "file", "dir", "dir_slash", "new_up", "new_abs", "dir_abs"])
+    return c
+
+
+def entry_corpus(rng):
+    out = []
+    for pwd in ["other", "other_slash", "unset", "relative", "nonexistent", "same", "file", "empty"]:
+        for nm, o, acc, pre, md in [("a", "unset", True, "none", "file"), ("a", "unset", True, "none", "dir"),
+                                    ("a", "unset", False, "file", "file"), ("../a", "unset", True, "dir", "dir"),
+                                    ("a", "new", True, "none", "file"), ("a", "dir", True, "file", "file"),
+                                    ("a", "file", False, "none", "dir"), ("x/..", "unset", True, "none", "file")]:
+            c = entry_case(rng, name=nm, output=o, accept=acc, pre=pre, mode=md, pwd=pwd)
+            c.update(answer="y", fault="none", zipmode="zipfile/deflated", elsewhere="file")
+            if md == "dir":
+                c["members"] = [["inner.txt", 0o600], ["sub/x", 0o644]]
+            out.append(c)
+    return out
+
+
 def go_corpus(rng):
     out = []
     # refusal at the prompt / by _decide_destname / failure mid-way, on destinations that are existing directories
@@ -194,12 +220,15 @@ def cases(rng, tier):
     out.append(dict(kind="path", names=["", "/", "//", "///", "//a", "///a", "a//b/", "../..", "/..", "//..", "a/./../..",
                                         "a/b/../../..", ".", "./", "a\\b/c", "\u00e4/../x", "/a/", "//a/..", "a/" + LONG]))
     out.extend(go_corpus(rng))
+    out.extend(entry_corpus(rng))
     # --- generated ----------------------------------------------------------------------------
     n = 1 if tier == "quick" else 25
     for _ in range(450 * n):
         out.append(recv_case(rng))
     for _ in range(250 * n):
         out.append(go_case(rng))
+    for _ in range(120 * n):
+        out.append(entry_case(rng))
     for _ in range(60 * n):
         out.append(dict(kind="zip", members=gen_members(rng) + gen_members(rng)))
     for _ in range(40 * n):
@@ -796,15 +825,63 @@ def fake_transit_receiver(payload):
     return FakeTransitReceiver
 
 
+PWD_MODES = ["other", "other", "other_slash", "unset", "relative", "nonexistent", "same", "file", "empty"]
+
+
 def run_go(case):
     sb = Sandbox()
+    if case.get("kind") != "entry":
+        try:
+            return _run_go(case, sb)
+        finally:
+            sb.cleanup()
+    # the real entry point: Config() is built by the click group itself, after a real chdir() into the sandbox's working
+    # directory, with $PWD naming something else (launched by Popen(cwd=…), env -C, sudo -D, cron …)
+    old_cwd = os.getcwd()
+    had_pwd = "PWD" in os.environ
+    old_pwd = os.environ.get("PWD")
     try:
-        return _run_go(case, sb)
+        other = os.path.join(sb.par, "elsewhere")
+        os.mkdir(other)
+        sb.put_file(os.path.join(other, "keep.txt"), b"keep me (elsewhere)")
+        os.mkdir(os.path.join(other, "keepdir"))
+        sb.put_file(os.path.join(other, "keepdir", "inner.txt"), b"keep me too (elsewhere)")
+        pwd = {"other": other, "other_slash": other + "/", "unset": None, "relative": "cwd", "same": sb.cwd,
+               "nonexistent": os.path.join(sb.par, "no-such-dir"), "file": os.path.join(sb.par, "sibling.txt"),
+               "empty": ""}[case["pwd"]]
+        os.chdir(sb.cwd)
+        if pwd is None:
+            os.environ.pop("PWD", None)
+        else:
+            os.environ["PWD"] = pwd
+        return _run_go(case, sb, entry=dict(pwd=pwd, other=other))
     finally:
+        os.chdir(old_cwd)
+        if had_pwd:
+            os.environ["PWD"] = old_pwd
+        else:
+            os.environ.pop("PWD", None)
         sb.cleanup()
 
 
-def _run_go(case, sb):
+def entry_config(out_file, accept):
+    """the Config object exactly as `wormhole receive …` gets it: built by the click group callback (Config()), filled by
+    the `receive` command; only the final `go(cmd_receive.receive, cfg)` (which starts the reactor) is intercepted.
+    Nothing is assigned to cfg.cwd."""
+    from click.testing import CliRunner
+    from wormhole.cli import cli
+    argv = ["receive", "--hide-progress"] + (["--accept-file"] if accept else []) + (["-o", out_file] if out_file else []) + ["1-abc"]
+    with mock.patch("wormhole.cli.cli.go") as go:
+        res = CliRunner().invoke(cli.wormhole, argv, catch_exceptions=False)
+    if res.exit_code != 0 or not go.call_args:
+        raise RuntimeError("click did not reach the receive command: " + res.output[-300:])
+    cfg = go.call_args[0][1]
+    cfg.stdout = io.StringIO()
+    cfg.stderr = io.StringIO()
+    return cfg
+
+
+def _run_go(case, sb, entry=None):
     fault = case.get("fault", "none")
     tags = ["go", f"mode:{case['mode']}", f"output:{case['output']}", f"pre:{case['pre']}", f"accept:{case['accept']}",
             f"fault:{fault}"]
@@ -812,11 +889,11 @@ def _run_go(case, sb):
     name, out_set, out_file, out_abs, out_was_dir = P['name'], P['out_set'], P['out_file'], P['out_abs'], P['out_was_dir']
     would_be, placeable = P['would_be'], P['placeable']
     lines, exp = [], []
-    reg = register(sb, lines, exp)
+    reg = register(sb, lines, exp) if entry is None else None
     proc = os.getcwd()
-    lines.append(f"args {hx(sb.cwd)} {hx(out_file or '')} {1 if case['accept'] else 0} {hx(case['answer'])} {hx(proc)}")
-    exp.append("ok")
-
+    if entry is None:
+        lines.append(f"args {hx(sb.cwd)} {hx(out_file or '')} {1 if case['accept'] else 0} {hx(case['answer'])} {hx(proc)}")
+        exp.append("ok")
     members = [[sb.subst(m[0], would_be if placeable else sb.cwd + "/nodest")] + list(m[1:]) for m in case.get("members", [])]
     if case["mode"] == "file":
         body = b"new data!"
@@ -829,6 +906,24 @@ def _run_go(case, sb):
         payload = body[:-3] if fault == "dropped" else (b"\x00" * len(body) if fault == "badzip" else body)
     dropped = fault == "dropped"
 
+    if entry is not None:
+        # the same-named things in the directory $PWD points at (so that a collision check against the wrong
+        # directory is visible too): what is pre-existing in the real working directory is absent there and vice versa
+        tags.append("pwd:" + case["pwd"])
+        seg = name.split("/")[-1]
+        if seg not in ("", ".", "..") and os_clean(seg) and not out_set:
+            there = entry["other"] + "/" + seg
+            if case["pre"] == "none" and case.get("elsewhere", "file") == "file" and not os.path.lexists(there):
+                sb.put_file(there, b"same name, other directory")
+            elif case["pre"] == "none" and case.get("elsewhere") == "dir" and not os.path.lexists(there):
+                sb.put_dir(there)
+        reg = register(sb, lines, exp)
+        cfg = entry_config(out_file, case["accept"])
+        pw = entry["pwd"]
+        lines.append(f"config_cwd {hx(proc)} {hx(pw or '')}")
+        exp.append(hx(cfg.cwd))
+        lines.append(f"entry_args {hx(proc)} {hx(pw or '')} {hx(out_file or '')} {1 if case['accept'] else 0} {hx(case['answer'])}")
+        exp.append("ok")
     before = sb.snapshot()
     args = make_args(sb, out_file, case["accept"])
     args.code = "1-abc"
@@ -841,6 +936,8 @@ def _run_go(case, sb):
     args.transit_helper = ""
     args.launch_tor = False
     args.tor_control_port = None
+    if entry is not None:
+        args = cfg
     w = FakeWormhole([{"transit": {"abilities-v1": [{"type": "direct-tcp-v1"}], "hints-v1": []}}, {"offer": offer}])
     r = cmd_receive.Receiver(args, task.Clock())
     fake_input = mock.Mock(side_effect=lambda prompt="": case["answer"])
@@ -906,7 +1003,7 @@ def run_case(case):
         return run_recv(case)
     if k == "zip":
         return run_zip(case)
-    if k == "go":
+    if k in ("go", "entry"):
         return run_go(case)
     raise ValueError(k)
 
@@ -924,7 +1021,7 @@ def search(rng, seconds, seeds):
 
 
 def shrink(case):
-    if case.get("kind") in ("recv", "go"):
+    if case.get("kind") in ("recv", "go", "entry"):
         ms = case.get("members") or []
         for i in range(len(ms)):
             c = dict(case)
